@@ -1626,6 +1626,10 @@ class Interp:
         neop = isinstance(op, (ast.NotEq, ast.IsNot))
         if eqop or neop:
             r = self._equal(a, b)
+            if r is None and isinstance(a, Poly) and isinstance(b, Poly):
+                lo, hi = self.interval(a - b, st)
+                if (lo is not None and lo > 0) or (hi is not None and hi < 0):
+                    r = False
             if r is None:
                 return None
             return r if eqop else (not r)
